@@ -33,7 +33,8 @@ impl RngCore for Mock {
 }
 
 fn sampler_case(s: &mut Stream) -> Verdict {
-    let n = 1 + s.below(8);
+    // mostly short vectors; one in four has 9..40 entries (block sizes of vectorised scans)
+    let n = if s.chance(64) { 9 + s.below(32) } else { 1 + s.below(8) };
     let style = s.below(4);
     let mut w: Vec<f64> = (0..n)
         .map(|_| match style {
@@ -417,13 +418,14 @@ pub fn prop() -> Prop {
         id: "C10",
         check,
         describe,
-        rule: "three parts. (a) categorical sampler: generated weight vectors (length 1..8, zeros, sums off one by 1e-15) x variates (random, or +-{0,3e-16,1e-9,1e-6} around a cumulative boundary) fed through a mock generator into the production sampler; the index must be the one whose cumulative interval contains the variate (either neighbour within 1e-12). (b) draw-log conformance: generated games x {Sampled, External, Full} x parameters x T in 1..12 x {1, 2..8 threads} with the production samplers running on per-site seeded generators; the reference model replays the recorded draws and must expect exactly the recorded set of (kind, infoset, pass) with the recorded weights (chance: declared normalised weights within 1e-12; player: the non-updating player's current strategy within 1e-6) and reach the same strategies. (c) fixed-seed distribution tests: chi-square over >= 20000 chance draws on eight fixed and 24 (thorough 200) seed-generated small-integer weight vectors (several with an entry exactly 1/n), martingale statistic over external player draws, alarm beyond p < 1e-10. Non-trivial = (a) vectors with >= 3 entries, (b) a chance infoset met at two or more nodes in one pass; distinct by case content.",
+        rule: "three parts. (a) categorical sampler: generated weight vectors (length 1..8, one in four 9..40; zeros; sums off one by 1e-15) x variates (random, or +-{0,3e-16,1e-9,1e-6} around a cumulative boundary) fed through a mock generator into the production sampler; the index must be the one whose cumulative interval contains the variate (either neighbour within 1e-12). (b) draw-log conformance: generated games x {Sampled, External, Full} x parameters x T in 1..12 x {1, 2..8 threads} with the production samplers running on per-site seeded generators; the reference model replays the recorded draws and must expect exactly the recorded set of (kind, infoset, pass) with the recorded weights (chance: declared normalised weights within 1e-12; player: the non-updating player's current strategy within 1e-6) and reach the same strategies. (c) fixed-seed distribution tests: chi-square over >= 20000 chance draws on eight fixed and 24 (thorough 200) seed-generated small-integer weight vectors (several with an entry exactly 1/n), martingale statistic over external player draws, alarm beyond p < 1e-10. Non-trivial = (a) vectors with >= 3 entries, (b) a chance infoset met at two or more nodes in one pass; distinct by case content.",
         max_len: 900,
         cases_quick: 50_000,
         cases_thorough: 800_000,
         assumptions: &["distribution tests are deterministic for a fixed seed; across seeds their false-alarm rate is below 1e-9 per run"],
         post: Some(distribution_checks),
         watchdog_s: 120,
+        hang_is_violation: false,
         shrink_iters: 1000,
     }
 }
